@@ -128,6 +128,10 @@ enum Pre {
     OddName,
     /// No destination argument: `<source stem>.lc3` in the current directory (absent before).
     DefaultDest,
+    /// A previous object file that has a second name (hard link).
+    HardLinked,
+    /// A chain of two relative symbolic links through another directory, final target absent.
+    LinkChain,
 }
 
 impl Pre {
@@ -140,6 +144,8 @@ impl Pre {
             Pre::DanglingLink => "dangling_symlink",
             Pre::OddName => "non_utf8_name",
             Pre::DefaultDest => "default_destination",
+            Pre::HardLinked => "hard_linked",
+            Pre::LinkChain => "symlink_chain",
         }
     }
     fn from_name(s: &str) -> Pre {
@@ -150,6 +156,8 @@ impl Pre {
             "dangling_symlink" => Pre::DanglingLink,
             "non_utf8_name" => Pre::OddName,
             "default_destination" => Pre::DefaultDest,
+            "hard_linked" => Pre::HardLinked,
+            "symlink_chain" => Pre::LinkChain,
             _ => Pre::Absent,
         }
     }
@@ -232,6 +240,11 @@ fn compile_once(setup: &Setup, fault: &Fault) -> (Option<(String, String)>, Proc
             std::fs::create_dir_all(&d).expect("dir dest");
             (d, false)
         }
+        _ if setup.pre == Pre::LinkChain => {
+            std::fs::create_dir_all(out_dir.join("a")).expect("dir a");
+            std::fs::create_dir_all(out_dir.join("b")).expect("dir b");
+            (out_dir.join("a").join("out.lc3"), false)
+        }
         _ if setup.pre == Pre::OddName => {
             use std::os::unix::ffi::OsStrExt;
             (out_dir.join(std::ffi::OsStr::from_bytes(b"pr\xffg\xfe.lc3")), false)
@@ -257,6 +270,17 @@ fn compile_once(setup: &Setup, fault: &Fault) -> (Option<(String, String)>, Proc
             std::fs::write(&target, &old).expect("symlink target");
             std::os::unix::fs::symlink(&target, &dest).expect("symlink");
             Some(old)
+        }
+        (Pre::HardLinked, _) => {
+            std::fs::write(&dest, SENTINEL).expect("sentinel");
+            std::fs::hard_link(&dest, out_dir.join("second-name.lc3")).expect("hard link");
+            Some(SENTINEL.to_vec())
+        }
+        (Pre::LinkChain, _) => {
+            // a/out.lc3 -> ../b/second.lc3 ; b/second.lc3 -> real.lc3 (which does not exist yet)
+            std::os::unix::fs::symlink("../b/second.lc3", &dest).expect("link 1");
+            std::os::unix::fs::symlink("real.lc3", out_dir.join("b").join("second.lc3")).expect("link 2");
+            None
         }
         (Pre::DanglingLink, _) => {
             std::os::unix::fs::symlink(out_dir.join("not-there-yet.bin"), &dest).expect("dangling symlink");
@@ -444,7 +468,11 @@ fn build(rng: &mut Rng) -> (Program, bool, Pre, &'static str) {
         4..=7 => Pre::Absent,
         8 => Pre::StaleTmp,
         9 => Pre::Symlink,
-        10 => Pre::DanglingLink,
+        10 => match rng.below(3) {
+            0 => Pre::DanglingLink,
+            1 => Pre::HardLinked,
+            _ => Pre::LinkChain,
+        },
         11 if rng.coin() => Pre::DefaultDest,
         _ => Pre::OddName,
     };
@@ -567,6 +595,8 @@ impl Check for C08 {
             Pre::DanglingLink => "probe:destination_is_dangling_symlink",
             Pre::OddName => "probe:destination_name_not_utf8",
             Pre::DefaultDest => "probe:default_destination_in_cwd",
+            Pre::HardLinked => "probe:destination_has_second_hard_link",
+            Pre::LinkChain => "probe:destination_is_symlink_chain",
         });
         report.nontrivial = faults.len() >= 2 || matches!(scenario.get("faults"), Some(J::Arr(_)));
         let shape = format!(
